@@ -56,6 +56,9 @@ CHECKS = {
     "C12": dict(engine="dsched", technique="property-based testing: generated concurrent cds_lfq enqueue/dequeue programs inside read-side sections of every flavor with node recycling through grace periods + schedules + TSO delays; Wing-Gong linearizability check against a sequential FIFO reference model incl. destroy, live-user-node and shadow-heap oracles",
                 text="Histories of the real rculfqueue code (three CAS sites, dummy-node swap, the flavor's call_rcu) are checked for linearizability against the FIFO specification; returned pointers must be live user nodes, dummies are reclaimed only after a grace period, destroy succeeds iff empty. Exploration over schedules.",
                 ref="DESIGN.md §6 C12"),
+    "C18": dict(engine="dsched", technique="property-based testing: Hypothesis-generated update sequences on cds_list/cds_hlist (mutually excluded updaters) concurrent with _rcu-iterator traversals in read-side sections, schedules that preempt between the individual plain pointer stores of each primitive; interval oracle from the update log (resident nodes visited once, in list order, nothing impossible, replacement atomic), payload-initialisation and shadow-heap oracles",
+                text="The static-inline list primitives are instrumented in the scenario so every plain pointer store is a scheduling point; each traversal is judged against the updater's logged call/return steps. Exploration over update sequences and schedules.",
+                ref="DESIGN.md §6 C18"),
 }
 NOT_YET = "check not built yet in this session (planned: see DESIGN.md §6)"
 
